@@ -128,7 +128,18 @@ def _tealcheck(spec):
         pr = tealcheck.validate(teal, spec["version"], spec["mode"])
         pr = [p for p in pr if "stack" in p or "applied to" in p or "pops" in p or "retsub" in p or "below" in p or "heights" in p]
         if pr:
-            out["problems"].append({"options": opt, "problems": pr[:4], "teal": teal})
+            rec = {"options": opt, "problems": pr[:4], "teal": teal}
+            # the known optimiser defect (values of the other stores stay on the stack) also shows up statically
+            ss = opt.get("scratch_slots")
+            if (ss is True or (ss is None and spec["version"] >= 9)) and all("heights" in p or "pops" in p or "retsub" in p for p in pr):
+                try:
+                    t0 = pt.compileTeal(progsem.build(prog), mode, version=spec["version"], optimize=pt.OptimizeOptions(scratch_slots=False, frame_pointers=opt.get("frame_pointers")))
+                    if e2e.multistore_signature(t0) and not [p for p in tealcheck.validate(t0, spec["version"], spec["mode"]) if "heights" in p or "pops" in p or "retsub" in p]:
+                        out.setdefault("known", []).append(rec)
+                        continue
+                except Exception:
+                    pass
+            out["problems"].append(rec)
     return out
 
 
@@ -148,6 +159,7 @@ def run(report: Report, tier, seed):
     with ProcessPoolExecutor(max_workers=16) as ex:
         res = list(ex.map(_tealcheck, specs, chunksize=4))
     bad = [(s, r) for s, r in zip(specs, res) if r["problems"]]
+    static_known = [(s, r) for s, r in zip(specs, res) if r.get("known")]
     report.bounded.append(Bounded(function="emitted TEAL of generated programs", contract="consistent stack height on every path, no pop below the routine's own values, consistent retsub delta, no definite type error (abstract interpretation)",
                                   bound=f"{n} generated programs (seed {seed}) x option settings", cases=sum(r["n"] for r in res),
                                   distinct_nontrivial=len(specs), failures=len(bad)))
@@ -161,7 +173,7 @@ def run(report: Report, tier, seed):
         if not mm:
             continue
         rec = {"input": {"spec": s}, "mismatches": mm[:3], "program": r.get("program"), "teal": r["teals"]}
-        if all(m["kind"] == "stack" and "ss=True" in m["options"] for m in mm) and r.get("known_multistore"):
+        if all(m["kind"] == "stack" and e2e.optimizer_on(m["options"], s["version"]) for m in mm) and r.get("known_multistore"):
             known.append(rec)
         else:
             fails.append(rec)
@@ -193,6 +205,10 @@ def run(report: Report, tier, seed):
     if known:
         report.violation(Violation(key=KNOWN_KEY, what="optimised program leaves extra values on the stack: " + known[0]["mismatches"][0]["what"][:200],
                                    replay=known[0], confirmed_native=True))
+    elif static_known:
+        s0, r0 = static_known[0]
+        report.violation(Violation(key=KNOWN_KEY, what="optimised program leaves extra values on the stack (seen statically): " + str(r0["known"][0]["problems"][:1])[:200],
+                                   replay={"input": {"spec": s0}, "problems": r0["known"][:1]}, confirmed_native=True))
     for s, r in bad[:2]:
         report.violation(Violation(key=f"tealcheck:{s['seed']}:{s['version']}", what=f"stack/type discipline broken: {r['problems'][0]['problems'][:2]}",
                                    replay={"input": {"spec": s}, "problems": r["problems"][:2]}, confirmed_native=True))
